@@ -34,7 +34,7 @@ RULE = ("random scripts N=8..40 indices; distinct = canonical script JSON; non-t
 REQUIRED_BUCKETS = ["primary-closed", "primary-raises", "primary-raises-while-fallback-in-step", "fallback-closed", "fallback-late-start", "lag:-1", "lag:0",
                     "lag:1", "lag:2", "recovery-to-primary", "both-invalid", "fallback-value-used",
                     "primary-closed-before-any-failure", "other-terms:0", "other-terms:2",
-                    "tier-B(real FallbackFormulaMetricFetcher)", "tier-B:pv-meter", "tier-B:grid-successor-meters", "tier-B:grid-successor-meters-reactive", "tier-B:producer-chp-meter", "tier-B:grid-successor-ev-meter", "tier-B:grid-successor-battery-meter", "tier-B:battery-also-fed-from-the-other-meter",
+                    "tier-B(real FallbackFormulaMetricFetcher)", "tier-B:pv-meter", "tier-B:grid-successor-meters", "tier-B:grid-successor-meters-reactive", "tier-B:producer-chp-meter", "tier-B:grid-successor-ev-meter", "tier-B:grid-successor-battery-meter", "tier-B:battery-formula-over-two-meters", "tier-B:battery-also-fed-from-the-other-meter",
                     "term-with-fallback-and-nones-are-zeros"]
 REQUIRED_COUNTERS = ["outputs_decoded", "scripts_run"]
 ASSUMPTIONS = ["tier A: the fallback is a test double at the public FallbackMetricFetcher seam; tier B: real PVPowerFormula + "
@@ -69,7 +69,8 @@ def gen(rng: Any, tier: str, i: int) -> Any:
     if rng.random() < 0.3:
         # tier B: the real PVPowerFormula with its real FallbackFormulaMetricFetcher over a fake resampler
         topo = rng.choice(["pv-meter", "pv-meter", "grid-successor-meters", "grid-successor-meters-reactive",
-                           "producer-chp-meter", "grid-successor-ev-meter", "grid-successor-battery-meter"])
+                           "producer-chp-meter", "grid-successor-ev-meter", "grid-successor-battery-meter",
+                           "battery-formula-over-two-meters"])
         return {"tier": "B", "topo": topo, "N": N, "pmask": pmask, "fmask": [True] * N, "lag": 0, "fallback_skip": 0,
                 "n_other": 1,
                 "fault": rng.choice([None, None, "close_primary"]), "fault_at": rng.randint(0, N - 1),
@@ -253,6 +254,7 @@ async def _drive_b(case: dict[str, Any], out: dict[str, Any]) -> None:
 
     C = ComponentCategory
     PRIMARY = 3
+    battery_ids: Any = None
     formula_cls: Any = PVPowerFormula
     wanted_metric = "ACTIVE_POWER"
     if case.get("topo") in ("grid-successor-meters", "grid-successor-meters-reactive"):
@@ -280,6 +282,21 @@ async def _drive_b(case: dict[str, Any], out: dict[str, Any]) -> None:
                  Component(4, C.CHP), Component(5, C.CHP), Component(7, C.INVERTER, InverterType.SOLAR)]
         conns = [Connection(1, 2), Connection(2, 3), Connection(2, 6), Connection(3, 4), Connection(3, 5), Connection(6, 7)]
         formula_cls = ProducerPowerFormula
+    elif case.get("topo") == "battery-formula-over-two-meters":
+        # the battery pool's own power formula: grid -> meter 2 -> {battery meter 3 -> inverters 4, 5 ; battery meter 6 ->
+        # inverter 7}; batteries 8 (on 4), 9 (on 5 - and, in half of the cases, on 7 as well) and 10 (on 7)
+        from frequenz.sdk.timeseries.formula_engine._formula_generators import BatteryPowerFormula
+
+        comps = [Component(1, C.GRID), Component(2, C.METER), Component(3, C.METER), Component(6, C.METER),
+                 Component(4, C.INVERTER, InverterType.BATTERY), Component(5, C.INVERTER, InverterType.BATTERY),
+                 Component(7, C.INVERTER, InverterType.BATTERY), Component(8, C.BATTERY), Component(9, C.BATTERY),
+                 Component(10, C.BATTERY)]
+        conns = [Connection(1, 2), Connection(2, 3), Connection(2, 6), Connection(3, 4), Connection(3, 5), Connection(6, 7),
+                 Connection(4, 8), Connection(5, 9), Connection(7, 10)]
+        if case["N"] % 2:
+            conns.append(Connection(7, 9))
+        formula_cls = BatteryPowerFormula
+        battery_ids = {8, 9, 10}
     elif case.get("topo") in ("grid-successor-ev-meter", "grid-successor-battery-meter"):
         # ... an EV-charger meter (3 -> chargers 4, 5) / a battery meter (3 -> battery inverters 4, 5 -> batteries 8, 9)
         # next to a PV meter, both directly below the grid, through GridPowerFormula
@@ -312,7 +329,7 @@ async def _drive_b(case: dict[str, Any], out: dict[str, Any]) -> None:
     sub_rx = sub.new_receiver(limit=1000)
     log: dict[str, Any] = {"fallback_sent": 0}
     out["log"] = log
-    eng = formula_cls("ns", reg, sub.new_sender(), FormulaGeneratorConfig(component_ids=None, allow_fallback=True)).generate()
+    eng = formula_cls("ns", reg, sub.new_sender(), FormulaGeneratorConfig(component_ids=battery_ids, allow_fallback=True)).generate()
     out["formula_str"] = str(eng)
     rx = eng.new_receiver(max_size=1000)
     await asyncio.sleep(0.001)
@@ -394,7 +411,7 @@ def check(case: dict[str, Any], rec: Any) -> None:
     if case.get("tier") == "B":
         rec.bucket("tier-B(real FallbackFormulaMetricFetcher)")
         rec.bucket("tier-B:" + case.get("topo", "pv-meter"))
-        if case.get("topo") == "grid-successor-battery-meter" and case["N"] % 2:
+        if case.get("topo") in ("grid-successor-battery-meter", "battery-formula-over-two-meters") and case["N"] % 2:
             rec.bucket("tier-B:battery-also-fed-from-the-other-meter")
         run_virtual(lambda: _drive_b(case, out), monitor=mon)
     else:
